@@ -1297,6 +1297,11 @@ class Interp:
                 return gh(self)
             fr2 = Frame(None, mod)
             return self.eval(mod.globals_ast[name], fr2)
+        # a module-level name the loader does not see (bound inside `try: from lib import X / except ImportError:`):
+        # only a registered model can give it a meaning
+        gh = self.reg.ext_models.get("global:" + mod.relpath + ":" + name)
+        if gh is not None:
+            return gh(self)
         return None
 
     def e_Attribute(self, e, fr):
